@@ -16,7 +16,7 @@ RULE = ("call lists of length 0..12 over a stateful reference object (counter, l
         "(call list, mode, serializer, server); non-trivial = list has >= 2 calls")
 ASSUMPTIONS = ["oneway-marked methods and iterator-returning methods are not batched (documented as unsupported)",
                "an exposure failure may surface at submission instead of at its position (the statement allows both)"]
-REQUIRED_REACH = ["impatient_batch_state_equal", "batch_equal", "failure_at_position", "failure_at_submit", "oneway_equal", "state_compared", "reused_batchproxy_equal", "forgotten_oneway_batch_equal", "long_batches"]
+REQUIRED_REACH = ["copied_batchproxy_equal", "impatient_batch_state_equal", "batch_equal", "failure_at_position", "failure_at_submit", "oneway_equal", "state_compared", "reused_batchproxy_equal", "forgotten_oneway_batch_equal", "long_batches"]
 SHARD_TIMEOUT = {"quick": 200, "thorough": 2400}
 
 
@@ -432,6 +432,65 @@ def check_reuse(fx, Ref, batches, sername, rec, n):
     rec.count("reused_batchproxy_equal")
 
 
+def check_copied(fx, Ref, prefix, own1, own2, first, sername, rec, n):
+    """copy.copy() of a half-built BatchProxy: the copy starts with the calls queued so far, from then on the two are separate batches. Each
+    of them, when submitted, is exactly its own calls - compared with the same calls made one by one, in submission order"""
+    import copy
+    P = fx.P
+    idx, idy = "cx%d" % n, "cy%d" % n
+    X, Y = Ref(), Ref()
+    fx.daemon.register(X, idx)
+    fx.daemon.register(Y, idy)
+    pay = {"copied": True, "prefix": prefix, "own1": own1, "own2": own2, "first": first, "serializer": sername, "servertype": fx.servertype}
+    rec.case(("copied", repr((prefix, own1, own2, first)), sername, fx.servertype), nontrivial=True, sample=pay if rec.evaluations % 200 == 9 else None)
+    outcomes = []
+    try:
+        with fx.proxy(idx, serializer=sername) as px, fx.proxy(idy, serializer=sername) as py:
+            b1 = P.client.BatchProxy(px)
+            for name, args, kwargs in prefix:
+                getattr(b1, name)(*args, **kwargs)
+            b2 = copy.copy(b1)
+            # further calls queued alternately on the original and on the copy
+            for k in range(max(len(own1), len(own2))):
+                if k < len(own1):
+                    name, args, kwargs = own1[k]
+                    getattr(b1, name)(*args, **kwargs)
+                if k < len(own2):
+                    name, args, kwargs = own2[k]
+                    getattr(b2, name)(*args, **kwargs)
+            order = [(b1, prefix + own1, "original"), (b2, prefix + own2, "copy")]
+            if first == "copy":
+                order.reverse()
+            for b, calls, which in order:
+                sres, sexc = run_sequential(P, py, calls)
+                bres, bexc, where, ret = run_batch(P, px, [], False, b)
+                dumpx = px._pyroInvoke("dump", (), {})
+                dumpy = py._pyroInvoke("dump", (), {})
+                outcomes.append((which, calls, sres, sexc, bres, bexc, where, dumpx, dumpy))
+    except Exception as x:
+        rec.inconc("harness call failed: %r" % (x,))
+        return
+    finally:
+        fx.daemon.unregister(X)
+        fx.daemon.unregister(Y)
+    for which, calls, sres, sexc, bres, bexc, where, dumpx, dumpy in outcomes:
+        if sername == "marshal" and bexc is not None and type(bexc) is ValueError and "unmarshallable" in str(bexc):
+            rec.violation("marshal-batch-member-exception-unmarshallable", "marshal: copied BatchProxy: %r" % (bexc,), pay)
+            return
+        what = None
+        if (sexc is None) != (bexc is None) or (sexc is not None and not same_exc(sexc, bexc)):
+            what = "one by one raised %r after %d results; the batch raised %r (%s) after %d results" % (sexc, len(sres), bexc, where, len(bres))
+        elif where != "submit" and not gen.deep_eq(bres, sres):
+            what = "one by one results %r, batch results %r" % (sres, bres)
+        if what is None and not gen.deep_eq(dumpx, dumpy):
+            what = "object after the batch %r, after the same calls one by one %r" % (dumpx, dumpy)
+        if what is not None:
+            rec.violation("copied-batchproxy-batch-differs", "a BatchProxy with %d queued calls was copied, then %d more calls were queued on the original and %d on the copy; the %s (submitted %s) holds %r: %s" % (
+                len(prefix), len(own1), len(own2), which, "first" if which == first else "second", [c[0] for c in calls], what), pay)
+            return
+    rec.count("copied_batchproxy_equal")
+
+
 def plan(tier, seed):
     shards = []
     per = 60 if tier == "quick" else 500
@@ -484,6 +543,12 @@ def run_shard(shard, rec):
                 batches.append((gen_calls(r, length, r.choice([None, None] + list(range(length)))), r.random() < 0.4))
             n += 1
             check_reuse(fx, Ref, batches, shard["serializer"], rec, n)
+        for _ in range(max(8, shard["n"] // 3)):
+            if rec.should_stop(30):
+                break
+            n += 1
+            mk = lambda k: gen_calls(r, k, r.choice([None, None, None] + list(range(k))) if k else None)
+            check_copied(fx, Ref, mk(r.randrange(0, 4)), mk(r.randrange(0, 4)), mk(r.randrange(0, 4)), r.choice(["original", "copy"]), shard["serializer"], rec, n)
         for kind, text in fixture.take_faults():
             if kind == "thread-exception":
                 rec.violation("server-thread-fault", text, None)
@@ -499,6 +564,9 @@ def replay(payload, rec):
     try:
         if "batches" in payload:
             check_reuse(fx, Ref, [(c, o) for c, o in payload["batches"]], payload["serializer"], rec, 1)
+        elif payload.get("copied"):
+            tup = lambda calls: [(c[0], tuple(c[1]), c[2]) for c in calls]
+            check_copied(fx, Ref, tup(payload["prefix"]), tup(payload["own1"]), tup(payload["own2"]), payload["first"], payload["serializer"], rec, 1)
         elif payload.get("impatient"):
             check_impatient(fx, Ref, payload["serializer"], rec, 1, payload["retries"])
         elif payload.get("alias_probe"):
